@@ -1371,3 +1371,33 @@ Proof.
   - destruct (w_nch w =? o_ns o); reflexivity.
 Qed.
 
+
+(* ---------------------------------------------------------------------- *)
+(* the channel-count guess of a meta-less reader                           *)
+(* ---------------------------------------------------------------------- *)
+Lemma flat_guess_384 n : 1 <= n -> flat_guess (2 * n * 384) = Some (384, n, 0).
+Proof.
+  intros Hn. unfold flat_guess. replace (2 * n * 384) with (n * 768) by lia.
+  rewrite Z.mod_mul by lia. cbn [Z.eqb]. rewrite Z.div_mul by lia. reflexivity.
+Qed.
+
+(* a 385-channel file is recognised unless its sample count is a multiple of 384:
+   then 768 divides the size as well and the first test wins — it is taken for
+   384 channels x (385 n / 384) samples *)
+Lemma flat_guess_385 n : 1 <= n ->
+  flat_guess (2 * n * 385) =
+    if n mod 384 =? 0 then Some (384, 385 * (n / 384), 0) else Some (385, n, 1).
+Proof.
+  intros Hn. unfold flat_guess.
+  replace (2 * n * 385) with (n * 770) by lia.
+  destruct (n mod 384 =? 0) eqn:E.
+  - apply Z.eqb_eq in E. apply Z.mod_divide in E; [|lia]. destruct E as [k Hk]. subst n.
+    replace (k * 384 * 770) with (385 * k * 768) by lia.
+    rewrite Z.mod_mul by lia. cbn [Z.eqb]. rewrite !Z.div_mul by lia. reflexivity.
+  - apply Z.eqb_neq in E.
+    assert (Hm : (n * 770) mod 768 <> 0).
+    { intros H. apply Z.mod_divide in H; [|lia]. destruct H as [k Hk].
+      apply E. apply Z.mod_divide; [lia|]. exists (k - n). lia. }   (* 385 n = 384 k, so n = 384 (k - n) *)
+    apply Z.eqb_neq in Hm. rewrite Hm. rewrite Z.mod_mul by lia. cbn [Z.eqb].
+    rewrite Z.div_mul by lia. reflexivity.
+Qed.
